@@ -1132,8 +1132,8 @@ fn gen_pyglue(rng: &mut Rng, n: usize, _tier: &str) -> Vec<String> {
 
 // ---- C28 generators
 /// does the *Python* reader (`_atom_from_stream`) reach a size prefix of 7 bytes (first byte 0xfe)
-/// with the six following bytes present, before anything else goes wrong?  This is the decidable
-/// region of finding H; request ids of such inputs carry the finding's token.
+/// with the six following bytes present, before anything else goes wrong?  (The inputs on which the
+/// readers disagreed before the repair of finding H.)
 pub fn reaches_7byte_prefix(b: &[u8]) -> bool {
     let mut pos = 0usize;
     let mut todo = 1usize; // number of objects still to read
@@ -1171,7 +1171,6 @@ pub fn reaches_7byte_prefix(b: &[u8]) -> bool {
     false
 }
 
-pub const KNOWN_H: &str = "KNOWN-H-python-7byte-size-prefix";
 
 fn size_prefix(k: usize, size: u64) -> Vec<u8> {
     // a k-byte size prefix (k leading ones) holding `size`, whether or not it is the shortest
@@ -1188,11 +1187,10 @@ fn gen_pyde(rng: &mut Rng, n: usize, tier: &str) -> Vec<String> {
     let mut out = vec![];
     let mut id = 0usize;
     let mut push = |out: &mut Vec<String>, b: &[u8]| {
-        if reaches_7byte_prefix(b) {
-            out.push(format!("PYDE {}:{} {}", KNOWN_H, id, hex_or_dash(b)));
-        } else {
-            out.push(format!("PYDE d{} {}", id, hex_or_dash(b)));
-        }
+        // inputs that reach a 7-byte size prefix (former finding H, repaired by /repo 61f724c) are marked
+        // in the id for the input distribution only; a disagreement on them is a plain failure
+        let tag = if reaches_7byte_prefix(b) { "d7_" } else { "d" };
+        out.push(format!("PYDE {}{} {}", tag, id, hex_or_dash(b)));
         id += 1;
     };
     // exhaustive short inputs
